@@ -67,6 +67,10 @@ def _impl_unobjid_block(vs, as_str):
         a = np.array([str(v) for v in vs])
     else:
         a = np.array([v - 2**64 if v >= 2**63 else v for v in vs], dtype=np.int64)
+        if as_str is False and len(vs) % 3 == 1:
+            a = a.astype('>i8')          # the same integers in the byte order of a FITS table column
+        elif as_str is False and len(vs) % 3 == 2:
+            a = np.ascontiguousarray(np.repeat(a, 2))[::2]      # a strided view
     u = unwrap_objid(a)
     if not as_str:
         # the same array object unpacked a second time (a function that consumes its argument in place shows here)
@@ -112,6 +116,8 @@ def _impl_unspec(vs, as_str):
 def _impl_unspec_block(vs, as_str):
     from pydl.pydlutils.sdss import unwrap_specobjid
     a = (np.array([str(v).encode('ascii') for v in vs]) if as_str == 'bytes' else np.array([str(v) for v in vs])) if as_str else np.array(vs, dtype=np.uint64)
+    if as_str is False and len(vs) % 3 == 1:
+        a = a.astype('>u8')
     u = unwrap_specobjid(a)
     ui = unwrap_specobjid(a, run2d_integer=True, specLineIndex=True)
     u2 = unwrap_specobjid(a)
@@ -337,7 +343,7 @@ def _unobjid(ctx):
     vs = [rng.getrandbits(64) for _ in range(ctx.n(2000, 100000))] + [rng.getrandbits(63) for _ in range(ctx.n(2000, 100000))]
     vs += [0, 1, 2**63 - 1, 2**63, 2**64 - 1] + [1 << k for k in range(64)] + [(1 << k) - 1 for k in range(1, 65)]
     for i in range(0, len(vs), 500):
-        blk = vs[i:i + 500]
+        blk = vs[i:i + 500 - (i // 500) % 3]
         m = core.driver([{'p': 'C06', 'op': 'unobjid', 'v': blk}])[0]
         for as_str in (False, True, 'bytes'):
             b2 = [v for v in blk if v < 2**63] if as_str else blk
@@ -459,7 +465,7 @@ def _unspec(ctx):
     vs += [0, 1, 2**63 - 1, 2**63, 2**64 - 1] + [1 << k for k in range(64)] + [(1 << k) - 1 for k in range(1, 65)]
     vs += [(r << 10) | (rng.getrandbits(40) << 24) | rng.getrandbits(10) for r in range(0, 16384)]  # every run2d value
     for i in range(0, len(vs), 500):
-        blk = vs[i:i + 500]
+        blk = vs[i:i + 500 - (i // 500) % 3]
         m = core.driver([{'p': 'C06', 'op': 'unspec', 'v': blk}])[0]
         for as_str in (False, True, 'bytes'):
             impl = _impl_unspec(blk, as_str)
